@@ -837,3 +837,345 @@ def _c_nominate(rng):
     if r < 0.8:
         return call('validate', _party('A'))
     return call('validate', {'O': ['Coalition', 'K', ['A', 'B']]})
+
+
+# ------------------------------------------------------------------------------------------------
+# shared defaults: every function of the library (module level, methods, static / class methods)
+
+_TARGETS = None
+_BASE_DEFAULTS = None
+CHECKED_METHODS = ('evaluate', 'convert', 'validate', 'calculate', 'next_count', 'nth_count', 'subset', 'transfer',
+                   '_elect_by_quota', '_subtract_overaward')
+
+
+def TARGETS():
+    global _TARGETS, _BASE_DEFAULTS
+    if _TARGETS is None:
+        _BASE_DEFAULTS = {k: v for k, (v, _) in _defaults_now().items()}
+        _TARGETS = _targets()
+    return _TARGETS
+
+
+def _functions():
+    seen = set()
+    for mod in _mods():
+        for n, o in vars(mod).items():
+            if isinstance(o, types.FunctionType) and o.__module__ == mod.__name__:
+                if id(o) not in seen:
+                    seen.add(id(o))
+                    yield f'{mod.__name__}.{n}', o
+            elif isinstance(o, type) and o.__module__ == mod.__name__:
+                for mn, m in vars(o).items():
+                    f = m.__func__ if isinstance(m, (staticmethod, classmethod)) else m
+                    if isinstance(f, types.FunctionType) and id(f) not in seen:
+                        seen.add(id(f))
+                        yield f'{mod.__name__}.{o.__name__}.{mn}', f
+
+
+def _defaults_now():
+    """qualified name -> (ordered snapshot of the mutable defaults, the default objects)"""
+    out = {}
+    for qn, f in _functions():
+        ds = list(f.__defaults__ or ()) + [v for _, v in sorted((f.__kwdefaults__ or {}).items())]
+        ds = [d for d in ds if _mutable_default(d)]
+        if ds:
+            out[qn] = (enc(ds, ordered=True), ds)
+    return out
+
+
+def _mutable_default(d):
+    if isinstance(d, (dict, list, set, bytearray)):
+        return True
+    if d is None or isinstance(d, (bool, int, str, float, Fraction, Decimal, tuple, frozenset, bytes, type,
+                                   types.FunctionType, types.BuiltinFunctionType)):
+        return False
+    return hasattr(d, '__dict__')          # a library object used as a shared default (SmithSet(), DEFAULT_MAPPER, ...)
+
+
+def check_defaults():
+    """[(function, what)] for every default container that is no longer what it was at import time, and for every
+    evaluate/convert/validate(...) default container that is not empty; polluted containers are emptied again so that one
+    pollution is attributed to one case."""
+    TARGETS()
+    bad = []
+    for qn, (snap, ds) in _defaults_now().items():
+        base = _BASE_DEFAULTS.get(qn)
+        if snap != base:
+            bad.append([qn, f'default changed: {json.dumps(base)[:120]} -> {json.dumps(snap)[:120]}'])
+        if qn.rsplit('.', 1)[-1] in CHECKED_METHODS:
+            for d in ds:
+                if isinstance(d, (dict, list, set)) and len(d) > 0:
+                    if not any(b[0] == qn for b in bad):
+                        bad.append([qn, f'default container not empty: {json.dumps(enc(d))[:120]}'])
+                    d.clear()
+    return bad
+
+
+# ------------------------------------------------------------------------------------------------
+# the run
+
+def _diff_paths(a, b, path=''):
+    """paths (attribute / key / index) at which two ordered snapshots differ"""
+    if a == b:
+        return []
+    if isinstance(a, dict) and isinstance(b, dict) and set(a) == set(b):
+        if 'obj' in a and a.get('obj') == b.get('obj'):
+            av, bv = dict(a['vars']), dict(b['vars'])
+            out = []
+            for k in sorted(set(av) | set(bv)):
+                if k not in av or k not in bv:
+                    out.append(f'{path}.{k}'.lstrip('.'))
+                else:
+                    out += _diff_paths(av[k], bv[k], f'{path}.{k}'.lstrip('.'))
+            return out
+        if 'L' in a and len(a['L']) == len(b['L']):
+            out = []
+            for i, (x, y) in enumerate(zip(a['L'], b['L'])):
+                out += _diff_paths(x, y, f'{path}.{i}'.lstrip('.'))
+            return out
+    return [path or '<self>']
+
+
+def _state(obj):
+    if isinstance(obj, type):
+        return {'cls': obj.__name__}
+    return enc(obj, ordered=True)
+
+
+def _model_state(t, obj):
+    """observable state of the modelled stateful components"""
+    if t.get('model') == 'pav':
+        return {'coefs': [num_str(c) for c in obj._coefs]}
+    if t.get('model') == 'borda':
+        sc = obj.rank_scorer
+        return {'n': sc.n_candidates, 'scores': None if sc._scores is None else [num_str(x) for x in sc._scores]}
+    return None
+
+
+def _invoke(t, obj, c):
+    dec = _Dec()
+    args = [dec(a) for a in c['a']]
+    kw = {k: dec(v) for k, v in c.get('k', {}).items()}
+    before = enc([args, kw], ordered=True)
+    out = outcome(lambda: getattr(obj, c['m'])(*args, **kw))
+    after = enc([args, kw], ordered=True)
+    mut = None
+    if before != after:
+        mut = {'before': before, 'after': after}
+    return out, mut
+
+
+def run_history(case):
+    T = TARGETS()
+    names = case['targets']
+    calls = case['calls']
+    obs = {'fresh': [], 'shared': [], 'repeat': [], 'mutated': [], 'drift': [], 'mstate': [], 'defaults': []}
+    pre = check_defaults()          # pollution left over by earlier cases is not this case's
+    # fresh instances first (nothing of this history has happened yet)
+    for i, c in enumerate(calls):
+        t = T[names[c['t']]]
+        out, mut = _invoke(t, t['make'](), c)
+        obs['fresh'].append(out)
+        if mut:
+            obs['mutated'].append({'call': i, 'run': 'fresh', 'target': t['name'], **mut})
+    bad = check_defaults()
+    # one shared instance per target
+    shared = {}
+    for i, c in enumerate(calls):
+        t = T[names[c['t']]]
+        if c['t'] not in shared:
+            shared[c['t']] = t['shared']() if 'shared' in t else t['make']()
+        obj = shared[c['t']]
+        s0 = _state(obj)
+        out, mut = _invoke(t, obj, c)
+        s1 = _state(obj)
+        obs['shared'].append(out)
+        obs['mstate'].append(_model_state(t, obj))
+        if mut:
+            obs['mutated'].append({'call': i, 'run': 'shared', 'target': t['name'], **mut})
+        if s0 != s1:
+            paths = _diff_paths(s0, s1)
+            ok = tuple(t.get('state_ok', ())) + {'pav': ('_coefs',), 'borda': ('rank_scorer',)}.get(t.get('model'), ())
+            un = [p for p in paths if not any(p == o or p.startswith(o + '.') for o in ok)]
+            obs['drift'].append({'call': i, 'target': t['name'], 'class': type(obj).__name__, 'paths': paths,
+                                 'unmodelled': un})
+    bad += check_defaults()
+    # seeded random components: the same call on another fresh instance with the same seed must repeat
+    for i, c in enumerate(calls):
+        t = T[names[c['t']]]
+        if t.get('seed') is not None:
+            out, _ = _invoke(t, t['make'](), c)
+            obs['repeat'].append(out)
+        else:
+            obs['repeat'].append(None)
+    bad += check_defaults()
+    obs['defaults'] = bad
+    return obs
+
+
+def impl(case):
+    if case['op'] != 'history':
+        raise ValueError(case['op'])
+    try:
+        return call_with_timeout(lambda: run_history(case), 60)
+    except TimeoutError:
+        return {'err': 'Timeout'}
+
+
+def oracle(case, obs):
+    """C18 stated on the observations."""
+    if 'err' in obs:
+        return [('timeout', 'history did not finish')]
+    T = TARGETS()
+    out = []
+    for i, c in enumerate(case['calls']):
+        t = T[case['targets'][c['t']]]
+        if not t.get('random') and obs['shared'][i] != obs['fresh'][i]:
+            out.append(('history_dependent',
+                        f"call {i} on shared {t['name']}: {json.dumps(obs['shared'][i])[:160]} but on a fresh instance "
+                        f"{json.dumps(obs['fresh'][i])[:160]}"))
+            break
+    for i, c in enumerate(case['calls']):
+        t = T[case['targets'][c['t']]]
+        if t.get('seed') is not None and obs['repeat'][i] != obs['fresh'][i]:
+            out.append(('unseeded_nondeterminism',
+                        f"call {i} on {t['name']} (seed {t['seed']}): {json.dumps(obs['fresh'][i])[:120]} then "
+                        f"{json.dumps(obs['repeat'][i])[:120]}"))
+            break
+    if obs['mutated']:
+        m = obs['mutated'][0]
+        out.append(('argument_mutated', f"call {m['call']} ({m['run']} {m['target']}): arguments "
+                    f"{json.dumps(m['before'])[:200]} became {json.dumps(m['after'])[:200]}"))
+    if obs['defaults']:
+        out.append(('shared_default_polluted', '; '.join(f'{q}: {w}' for q, w in obs['defaults'][:3])))
+    return out
+
+
+# ------------------------------------------------------------------------------------------------
+# generator
+
+REQUIRED_COUNTERS = ['every_class', 'singleton', 'pav_cache_grows', 'pav_small_after_large', 'borda_n_changes',
+                     'seeded_random', 'interleaved_objects', 'defaults_used', 'prev_gains_given', 'nested_prev_gains',
+                     'model:pav', 'model:borda', 'model:rng']
+
+
+def _mk(targets, calls, tags):
+    return {'op': 'history', 'targets': targets, 'calls': calls, '_tags': sorted(set(tags))}
+
+
+def _tag_calls(TG, targets, calls, tags):
+    tags = list(tags)
+    for c in calls:
+        t = TG[targets[c['t']]]
+        k = c.get('k', {})
+        if c['m'] in ('evaluate', 'calculate') and 'prev_gains' not in k and 'max_seats' not in k:
+            tags.append('defaults_used')
+        if 'prev_gains' in k:
+            tags.append('prev_gains_given')
+            if any(isinstance(v, dict) and 'D' in v for _, v in k['prev_gains'].get('D', [])):
+                tags.append('nested_prev_gains')
+        if t.get('seed') is not None:
+            tags.append('seeded_random')
+        if t.get('singleton'):
+            tags.append('singleton')
+        if t.get('model'):
+            tags.append('model:' + t['model'])
+    if len(set(c['t'] for c in calls)) > 1:
+        tags.append('interleaved_objects')
+    return tags
+
+
+def _history(rng, TG, name, n=None):
+    t = TG[name]
+    n = n or rng.randint(2, 6)
+    calls = []
+    for _ in range(n):
+        c = t['gen'](rng)
+        c['t'] = 0
+        calls.append(c)
+        if rng.random() < 0.15 and len(calls) < n:       # the same call again: "nor on how often it has been called"
+            calls.append(json.loads(json.dumps(c)))
+    return calls[:6]
+
+
+RANDOM_FAMILY = ['Sortitor', 'Sortitor:seed8', 'Sortitor:unseeded', 'RandomUnrankedBallotSelector',
+                 'RandomUnrankedBallotSelector:unseeded', 'Hare', 'Hare:unseeded', 'TieBreaking:sortitor',
+                 'TransferableVoteSelector:hare', 'TransferableVoteDistributor:hare', 'TransferableVoteSelector:hare_unseeded']
+
+
+def generate(rng, tier):
+    TG = TARGETS()
+    reps = 3 if tier == 'quick' else 25
+    names = list(TG)
+    # (1) every class / singleton, single shared instance
+    for name in names:
+        for _ in range(reps):
+            calls = _history(rng, TG, name)
+            yield _mk([name], calls, _tag_calls(TG, [name], calls, ['every_class']))
+    # (2) directed: PAV cache — small seat count after a large one and the other way round
+    for _ in range(12 if tier == 'quick' else 200):
+        cands = CN[:rng.randint(3, 4)]
+        seats = [rng.randint(1, 3) for _ in range(rng.randint(2, 6))]
+        if rng.random() < 0.7:
+            seats[0] = rng.randint(2, 3)
+            seats[-1] = 1
+        calls = [dict(call('evaluate', g_approval(rng, cands), s), t=0) for s in seats]
+        tags = ['pav_directed']
+        if any(b > max(seats[:i], default=0) for i, b in enumerate(seats) if i > 0):
+            tags.append('pav_cache_grows')
+        if any(b < max(seats[:i], default=0) for i, b in enumerate(seats) if i > 0):
+            tags.append('pav_small_after_large')
+        yield _mk(['ProportionalApproval'], calls, _tag_calls(TG, ['ProportionalApproval'], calls, tags))
+    # (3) directed: Borda scorer — profiles with different numbers of candidates on one converter
+    for _ in range(12 if tier == 'quick' else 200):
+        name = rng.choice(['RankedToPositionalVotes', 'RankedToPositionalVotes:base0'])
+        calls = []
+        sizes = []
+        for _ in range(rng.randint(2, 6)):
+            k = rng.randint(1, 5)
+            sizes.append(k)
+            v = g_ranked(rng, CN[:k])
+            if rng.random() < 0.1:       # malformed: a ballot naming a candidate more often than there are candidates
+                v = D([(T([CN[0]] * rng.randint(2, 3)), 2)])
+            calls.append(dict(call('convert', v), t=0))
+        tags = ['borda_directed'] + (['borda_n_changes'] if len(set(sizes)) > 1 else [])
+        yield _mk([name], calls, _tag_calls(TG, [name], calls, tags))
+    # (4) interleaved objects: random components sharing the global RNG, singletons next to their users
+    pools = [RANDOM_FAMILY,
+             ['STAR', 'singleton:condorcet.EVALUATORS[schulze]', 'Schulze'],
+             ['STAR:rp', 'singleton:condorcet.EVALUATORS[rankedpairs_winvotes]'],
+             ['Benham', 'singleton:Benham.CONDO', 'singleton:sequential.RANKED_SUBSETTER', 'TidemanAlternative',
+              'singleton:sequential.RANKED_TO_CONDORCET', 'singleton:TidemanAlternative.default_set_selector', 'Baldwin'],
+             ['TransferableVoteSelector', 'TransferableVoteDistributor', 'singleton:sequential.DEFAULT_TRANSFERER'],
+             ['Conditioned', 'ByConstituency:apportioned', 'singleton:core.DEFAULT_SUBSETTER', 'TieBreaking'],
+             ['HighestAverages', 'MultistageDistributor', 'LargestRemainder', 'QuotaDistributor', 'AdjustedSeatCount'],
+             ['IndividualToPartyVotes', 'singleton:convert.DEFAULT_MAPPER', 'GroupVotesByParty'],
+             ['RankedToPositionalVotes', 'Baldwin', 'PreConverted:borda', 'Chain:borda'],
+             names]
+    for _ in range(40 if tier == 'quick' else 800):
+        pool = rng.choice(pools)
+        targets = rng.sample(pool, min(len(pool), rng.randint(2, 3)))
+        calls = []
+        for _ in range(rng.randint(3, 6)):
+            ti = rng.randrange(len(targets))
+            c = TG[targets[ti]]['gen'](rng)
+            c['t'] = ti
+            calls.append(c)
+        yield _mk(targets, calls, _tag_calls(TG, targets, calls, ['pool'] + (['model:rng'] if pool is RANDOM_FAMILY else [])))
+    # (5) seeded random components on their own: the reseeding state machine
+    for name in [n for n in names if TG[n].get('seed') is not None]:
+        for _ in range(3 if tier == 'quick' else 30):
+            calls = _history(rng, TG, name)
+            yield _mk([name], calls, _tag_calls(TG, [name], calls, ['model:rng']))
+
+
+def nontrivial(case, obs):
+    return 'err' not in obs and len(case['calls']) >= 2 and any('ok' in o for o in obs['shared'])
+
+
+RULE = ('call sequences of length 2-6 (profiles of 2-5 candidates, 1-5 ballot types, counts from a tie-prone set with occasional '
+        'Fractions, seat counts 1-6, flat and nested prev_gains / max_seats given or omitted) on one shared instance vs fresh '
+        'instances of every public evaluator / converter / validator / subsetter / transferer class (about 150 configurations) '
+        'and of the module-level singletons; pools of 2-3 different objects interleaved in one history (all random components '
+        'sharing the global RNG; singletons next to the evaluators that use them). Non-trivial = at least two calls and at least '
+        'one call that returns a result; distinct by canonical request.')
